@@ -37,17 +37,26 @@ def run_property(pid, tier, seed=0, only=None, quiet=False):
         repo = Repo()
         chk.repo = repo
         ctx = Ctx(repo, tier)
+        # static taints of the sequence/table builders: possibly-dead code, constructs the grammar does not follow
+        from .gram import Grammar
+        from .tablefrag import table_taint
+        g0 = Grammar(repo)
+        chk.maybe_nodes = g0.liveness.maybe_nodes
+        chk.taint(g0.liveness.maybe_taint())
+        chk.taint(g0.taint())
+        chk.taint(table_taint(repo, g0.liveness))
         mod = importlib.import_module(f"sa.rules.{pid.lower()}")
         mod.run(chk, ctx)
         chk.taint(ctx.model.tainted)
         chk.extra["normalisation"] = {
+            "desugared": sorted({f"{r}:{f}:{x}" for r, f, x in repo.desugared}),
             "helpers_inlined": sorted({f"{r}:{f}<-{h}" for r, f, h in repo.inlined_helpers}),
             "conditional_locals_split": sorted({f"{r}:{f}:{x}" for r, f, x in repo.split_locals}),
             "block_locals_substituted": sorted({f"{f}:{x}" for f, x in repo.substituted_locals}),
             "properties_expanded": sorted({f"{r}:{c}.{f}" for r, c, f, n in repo.expanded_properties}),
             "properties_synthesised": sorted({f"{r}:{c}.{f}" for r, c, f in repo.synthesised_properties})}
-        if ctx.model.tainted:
-            chk.extra["tainted_functions"] = {k: [f"line {l}: {t}" for l, t in v] for k, v in ctx.model.tainted.items()}
+        if chk.tainted:
+            chk.extra["tainted_functions"] = {k: [f"line {l}: {t}" for l, t in v] for k, v in chk.tainted.items()}
         if tier == "thorough" and ctx.model.used_generators():
             # second cover of the state space: one generator run per boundary cell of the configuration
             # (every finite-domain attribute split, integer attributes split at lowest / lowest+1 / rest).
@@ -55,6 +64,8 @@ def run_property(pid, tier, seed=0, only=None, quiet=False):
             # REFUTED if either refutes it (a refutation inside a feasible cell is definite).
             chk2 = Check(pid, tier, seed, quiet=True)
             chk2.repo = repo
+            chk2.maybe_nodes = chk.maybe_nodes
+            chk2.taint(chk.tainted)
             ctx2 = Ctx(repo, tier, deep=True)
             mod.run(chk2, ctx2)
             chk2.taint(ctx2.model.tainted)
